@@ -71,6 +71,8 @@ type PathState struct {
 	tsTokens  map[*Term]Value
 	timeParts map[*Term]*tparts
 	sqlFiles  map[string]*sqlDB
+	lazy      map[*Term]*lazyDef
+	lazySeen  map[*Term]bool
 	uuidCtr   int
 }
 
@@ -296,12 +298,39 @@ func (in *Interp) knownVal(c *Term) (bool, bool) {
 func (in *Interp) flushPC() {
 	p := in.path
 	for ; p.sent < len(p.pc); p.sent++ {
+		in.scanLazy(p.pc[p.sent])
 		in.solver.Assert(p.pc[p.sent])
+	}
+}
+
+// scanLazy activates the deferred definitions of variables occurring in t.
+func (in *Interp) scanLazy(t *Term) {
+	p := in.path
+	if len(p.lazy) == 0 || p.lazySeen[t] {
+		return
+	}
+	p.lazySeen[t] = true
+	if t.op == OpVar {
+		if ld := p.lazy[t]; ld != nil && !ld.active {
+			ld.active = true
+			p.pc = append(p.pc, ld.def)
+			in.scanLazy(ld.def)
+		}
+		return
+	}
+	for _, a := range t.args {
+		in.scanLazy(a)
 	}
 }
 
 // check asks the solver for satisfiability of pc ∧ extra.
 func (in *Interp) check(extra *Term, model []*Term) (string, map[string]uint64) {
+	if extra != nil {
+		in.scanLazy(extra)
+	}
+	for _, m := range model {
+		in.scanLazy(m)
+	}
 	in.flushPC()
 	res, vals := in.solver.Check(extra, model)
 	if res == "error" {
@@ -579,7 +608,7 @@ type pathStats struct {
 
 // runPath executes the harness once along prefix.
 func (in *Interp) runPath(prefix []Decision) {
-	in.path = &PathState{prefix: prefix, known: map[*Term]bool{}, started: time.Now(), pbArrays: map[*Array]*pbToken{}, tsTokens: map[*Term]Value{}, timeParts: map[*Term]*tparts{}, sqlFiles: map[string]*sqlDB{}}
+	in.path = &PathState{prefix: prefix, known: map[*Term]bool{}, started: time.Now(), pbArrays: map[*Array]*pbToken{}, tsTokens: map[*Term]Value{}, timeParts: map[*Term]*tparts{}, sqlFiles: map[string]*sqlDB{}, lazy: map[*Term]*lazyDef{}, lazySeen: map[*Term]bool{}}
 	in.spec = nil
 	in.lastNow = nil
 	in.stats = pathStats{}
